@@ -18,5 +18,6 @@ def run(ctx, R):
     n = v1model.check_window(ctx, R, 'C01.W', 'str') + v1model.check_window(ctx, R, 'C01.W', 'bytes')
     R.floor('window instances', n, 8)
     v1model.c01_rules(ctx, R)
+    v1model.v1_no_panic(ctx, R, 'C01.W')
     v1model.c01_accept(ctx, R, 'C01.A')
     v1model.c01_accept_unknown(ctx, R, 'C01.A')
